@@ -1,12 +1,371 @@
-// C07 harness: std codecs and hashers vs independent implementations.
+// C07 harness: the std codecs and hashers compiled from the working tree (through the shared C
+// driver `wvh/cdrv`, flavours plain-gcc = SIMD paths and noarch = the portable paths) against
+// independent implementations:
+//
+//	hashers   Wuffs C (random update partitions)  vs  Lean mirror+spec (wv_c07)  vs  Go hash/*, crypto/sha256
+//	decoders  payload → reference encoder → Wuffs C decoder  vs  Lean spec decoder  vs  the payload
+//	images    file → Wuffs C decoder (pixels)  vs  Go image/png, image/gif decoder (pixels)
+//
+// The property's oracle (status ok, bytes/pixels exact, sums equal the reference) is evaluated on
+// the implementation for every case; the op lines tie the Lean models to the implementation.
 package main
 
 import (
+	"bytes"
+	"crypto/sha256"
+	"encoding/hex"
 	"fmt"
+	"hash/adler32"
+	"hash/crc32"
+	"hash/crc64"
+	"image/gif"
+	"image/png"
 	"os"
+	"path/filepath"
+	"sort"
+	"strings"
+	"sync"
 
+	"wvh/cdrv"
 	"wvh/hlib"
 )
+
+type opLine struct{ op, impl string }
+
+type caseResult struct {
+	ops     []opLine
+	fails   []hlib.Failure
+	counts  []string
+	nontriv []string
+	sample  string
+}
+
+type job func(w *worker) caseResult
+
+type worker struct {
+	simd, generic *cdrv.Driver
+}
+
+func trunc(s string, n int) string {
+	if len(s) > n {
+		return s[:n] + fmt.Sprintf("…(%d bytes more)", len(s)-n)
+	}
+	return s
+}
+
+// runCmd runs one cdrv command; a crash / timeout is reported as a synthetic line.
+func runCmd(d *cdrv.Driver, cmd string) (string, *cdrv.Result) {
+	line, err := d.Run(cmd)
+	if err != nil {
+		if ce, ok := err.(*cdrv.CrashError); ok {
+			return "crash " + ce.Kind(), nil
+		}
+		return "error " + strings.ReplaceAll(err.Error(), "\n", " "), nil
+	}
+	res, perr := cdrv.ParseResult(line)
+	if perr != nil {
+		return line, nil
+	}
+	return line, res
+}
+
+func outOf(b []byte) string {
+	if len(b) <= 4096 {
+		return fmt.Sprintf("len=%d out=%s", len(b), hlib.Hex(b))
+	}
+	return fmt.Sprintf("len=%d out=%s", len(b), cdrv.FNV64(b))
+}
+
+func resOut(res *cdrv.Result) string {
+	o := res.OutHex
+	if o == "" {
+		o = res.OutDigest
+	}
+	if res.OutLen == 0 {
+		o = "-"
+	}
+	return fmt.Sprintf("len=%d out=%s", res.OutLen, o)
+}
+
+// ---------------------------------------------------------------- hashers
+
+func refSum(codec string, data []byte) string {
+	switch codec {
+	case "adler32":
+		return fmt.Sprintf("%08x", adler32.Checksum(data))
+	case "crc32":
+		return fmt.Sprintf("%08x", crc32.ChecksumIEEE(data))
+	case "crc64":
+		return fmt.Sprintf("%016x", crc64.Checksum(data, crc64.MakeTable(crc64.ECMA)))
+	case "sha256":
+		s := sha256.Sum256(data)
+		return hex.EncodeToString(s[:])
+	}
+	panic(codec)
+}
+
+func hashJob(codec string, data []byte, content string, part []int, mode string, lean bool) job {
+	return func(w *worker) caseResult {
+		var cr caseResult
+		sp := splitsStr(part)
+		want := refSum(codec, data)
+		cmd := fmt.Sprintf("hash %s mode=%s %s %s", codec, mode, sp, hlib.Hex(data))
+		replay := fmt.Sprintf("cdrv: %s\nreference (Go) sum: %s", trunc(cmd, 300000), want)
+		var sums [2]string
+		for i, d := range []*cdrv.Driver{w.generic, w.simd} {
+			fl := string(d.Flavour)
+			line, _ := runCmd(d, cmd)
+			kv := cdrv.ParseKV(line)
+			sums[i] = kv["sum"]
+			if !strings.HasPrefix(line, "ok ") || kv["sum"] == "" {
+				cr.fails = append(cr.fails, hlib.Failure{Key: "hash:" + codec + ":" + fl + ":no-result", Desc: "hasher run failed: " + trunc(line, 200), Replay: replay})
+				continue
+			}
+			if kv["sum"] != want {
+				cr.fails = append(cr.fails, hlib.Failure{Key: "hash:" + codec + ":" + fl + ":ne-reference",
+					Desc:   fmt.Sprintf("%s (%s build) of %d %s bytes split %s = %s, reference %s", codec, fl, len(data), content, trunc(sp, 80), kv["sum"], want),
+					Replay: replay + "\nflavour: " + fl})
+			}
+			if kv["flags"] != "-" {
+				cr.fails = append(cr.fails, hlib.Failure{Key: "hash:" + codec + ":" + fl + ":" + kv["flags"],
+					Desc: "update_u32/u64/bitvec256 return value differs from checksum, or the source bytes were modified: " + kv["flags"], Replay: replay})
+			}
+		}
+		if lean {
+			s := sums[0]
+			if s == "" {
+				s = "none"
+			}
+			cr.ops = append(cr.ops, opLine{fmt.Sprintf("hash %s %s %s", codec, sp, hlib.Hex(data)), "sum=" + s + " spec=ok"})
+		}
+		cr.counts = append(cr.counts, "hash:"+codec, "hash-content:"+content, fmt.Sprintf("hash-calls:%s", bucket(len(part))))
+		cr.nontriv = append(cr.nontriv, fmt.Sprintf("hash|%s|%d|%s|%s", codec, len(data), content, trunc(sp, 40)))
+		return cr
+	}
+}
+
+func bucket(n int) string {
+	switch {
+	case n <= 1:
+		return "1"
+	case n <= 4:
+		return "2-4"
+	case n <= 64:
+		return "5-64"
+	}
+	return ">64"
+}
+
+func hash0Job(codec string) job {
+	return func(w *worker) caseResult {
+		var cr caseResult
+		want := refSum(codec, nil)
+		cmd := fmt.Sprintf("proto %s init;sum -", codec)
+		line, _ := runCmd(w.generic, cmd)
+		got := ""
+		if f := strings.Fields(line); len(f) >= 2 {
+			if p := strings.Split(f[1], ";"); len(p) == 2 {
+				got = p[1]
+			}
+		}
+		cr.ops = append(cr.ops, opLine{"hash0 " + codec, "sum=" + got})
+		if got != want {
+			cr.fails = append(cr.fails, hlib.Failure{Key: "hash:" + codec + ":zero-update-calls",
+				Desc:   fmt.Sprintf("%s hasher with no update call reports %s; the %s of the empty string is %s", codec, got, codec, want),
+				Replay: "cdrv: " + cmd + "\n(initialize, then checksum without any update call = the empty string split into zero pieces)"})
+		}
+		cr.counts = append(cr.counts, "hash0:"+codec)
+		return cr
+	}
+}
+
+// ---------------------------------------------------------------- io_transformers
+
+// decJob: decode e.data with Wuffs (both flavours alternately by `alt`), compare with want.
+func decJob(e encoded, want []byte, class string, chunking string, alt int, lean bool) job {
+	return func(w *worker) caseResult {
+		var cr caseResult
+		d := w.simd
+		if alt%2 == 1 {
+			d = w.generic
+		}
+		fl := string(d.Flavour)
+		opts := e.opts
+		if chunking != "" {
+			opts += " " + chunking
+		}
+		var got bytes.Buffer
+		status := "ok"
+		rest := e.data
+		members := e.members
+		if members == 0 {
+			members = 1
+		}
+		var lastCmd string
+		var outDesc string
+		for m := 0; m < members; m++ {
+			cmd := strings.Join(strings.Fields(fmt.Sprintf("run %s %s digest=0 maxout=268435456 %s", e.codec, opts, hlib.Hex(rest))), " ")
+			lastCmd = cmd
+			line, res := runCmd(d, cmd)
+			if res == nil {
+				status = trunc(line, 120)
+				break
+			}
+			if res.Status != "ok" {
+				status = res.Status
+				break
+			}
+			if len(res.Checks) > 0 {
+				status = "io-contract:" + strings.Join(res.Checks, ",")
+				break
+			}
+			b, _ := hex.DecodeString(strings.TrimPrefix(res.OutHex, "-"))
+			got.Write(b)
+			if int(res.Ri) > len(rest) {
+				status = "ri-beyond-input"
+				break
+			}
+			rest = rest[res.Ri:]
+			if m == members-1 && len(rest) != 0 {
+				outDesc = fmt.Sprintf(" (%d trailing bytes not consumed)", len(rest))
+			}
+		}
+		replay := fmt.Sprintf("payload class: %s (%d bytes)\nencoder: %s %s\nflavour: %s\ncdrv: %s\npayload: %s", class, len(want), e.codec, e.setting, fl, trunc(lastCmd, 400000), trunc(hlib.Hex(want), 100000))
+		key := e.codec + ":" + strings.Fields(e.setting + " x")[0]
+		if status != "ok" {
+			cr.fails = append(cr.fails, hlib.Failure{Key: "decode-status:" + key + ":" + status,
+				Desc: fmt.Sprintf("Wuffs %s (%s) decoding a valid %s stream (%s, payload %s %d bytes) ends with status %s", e.codec, fl, e.codec, e.setting, class, len(want), status), Replay: replay})
+		} else if !bytes.Equal(got.Bytes(), want) {
+			cr.fails = append(cr.fails, hlib.Failure{Key: "decode-bytes:" + key,
+				Desc: fmt.Sprintf("Wuffs %s (%s) output differs from the payload (%s, payload %s %d bytes; got %d bytes, first difference at %d)%s", e.codec, fl, e.setting, class, len(want), got.Len(), firstDiff(got.Bytes(), want), outDesc), Replay: replay})
+		}
+		if lean {
+			impl := "err"
+			if status == "ok" {
+				impl = "ok " + outOf(got.Bytes())
+			}
+			switch e.codec {
+			case "deflate":
+				cr.ops = append(cr.ops, opLine{"dec deflate " + hlib.Hex(e.data), impl})
+			case "zlib":
+				cr.ops = append(cr.ops, opLine{"dec zlib " + hlib.Hex(e.dict) + " " + hlib.Hex(e.data), impl})
+			case "gzip":
+				cr.ops = append(cr.ops, opLine{"dec gzip " + hlib.Hex(e.data), impl})
+			case "lzw":
+				if status == "ok" {
+					impl += fmt.Sprintf(" used=%d", len(e.data)-len(rest))
+				}
+				cr.ops = append(cr.ops, opLine{fmt.Sprintf("dec lzw %d %s", e.lw, hlib.Hex(e.data)), impl})
+			}
+		}
+		cr.counts = append(cr.counts, "dec:"+e.codec, "dec-flavour:"+fl, "payload:"+class, "enc:"+e.codec+":"+strings.Fields(e.setting + " x")[0])
+		if chunking != "" {
+			cr.counts = append(cr.counts, "dec-chunked")
+		}
+		cr.nontriv = append(cr.nontriv, fmt.Sprintf("dec|%s|%s|%s|%d|%s", e.codec, e.setting, class, len(want), chunking))
+		return cr
+	}
+}
+
+func firstDiff(a, b []byte) int {
+	n := len(a)
+	if len(b) < n {
+		n = len(b)
+	}
+	for i := 0; i < n; i++ {
+		if a[i] != b[i] {
+			return i
+		}
+	}
+	return n
+}
+
+func chunkOpt(rng *hlib.Rand) string {
+	switch rng.Intn(6) {
+	case 0:
+		return "src=1 dst=1"
+	case 1:
+		return fmt.Sprintf("src=%d dst=%d", rng.Range(1, 40), rng.Range(1, 300))
+	case 2:
+		return fmt.Sprintf("src=%d,%d dst=%d", rng.Range(1, 9), rng.Range(100, 5000), rng.Range(1000, 70000))
+	case 3:
+		return fmt.Sprintf("dst=%d", rng.Range(1, 4000))
+	case 4:
+		return fmt.Sprintf("src=%d", rng.Range(1, 4000))
+	}
+	return ""
+}
+
+// ---------------------------------------------------------------- images
+
+func imgJob(codec string, file []byte, origin string, pixfmt string, want []byte, w0, h0, frames int, alt int, chunking string) job {
+	return func(w *worker) caseResult {
+		var cr caseResult
+		d := w.simd
+		if alt%2 == 1 {
+			d = w.generic
+		}
+		fl := string(d.Flavour)
+		cmd := strings.Join(strings.Fields(fmt.Sprintf("run %s pixfmt=%s digest=0 %s %s", codec, pixfmt, chunking, hlib.Hex(file))), " ")
+		line, res := runCmd(d, cmd)
+		replay := fmt.Sprintf("image: %s\nflavour: %s\ncdrv: %s", origin, fl, trunc(cmd, 400000))
+		key := codec + ":" + strings.Fields(origin + " x")[0]
+		cr.counts = append(cr.counts, "img:"+codec, "img-origin:"+strings.Fields(origin + " x")[0], "img-flavour:"+fl)
+		cr.nontriv = append(cr.nontriv, "img|"+origin+"|"+pixfmt)
+		if res == nil {
+			cr.fails = append(cr.fails, hlib.Failure{Key: "image-run:" + key, Desc: "Wuffs " + codec + " run failed: " + trunc(line, 200), Replay: replay})
+			return cr
+		}
+		// an image decoder's sequence ends with "@base: end of data" after the last frame
+		if res.Status != "@base:_end_of_data" {
+			cr.fails = append(cr.fails, hlib.Failure{Key: "image-status:" + key + ":" + res.Status,
+				Desc: fmt.Sprintf("Wuffs %s (%s) on a valid image (%s) ends with status %s instead of decoding all frames", codec, fl, origin, res.Status), Replay: replay})
+			return cr
+		}
+		if len(res.Checks) > 0 {
+			cr.fails = append(cr.fails, hlib.Failure{Key: "image-io-contract:" + key, Desc: "I/O contract: " + strings.Join(res.Checks, ","), Replay: replay})
+		}
+		if res.KV["w"] != fmt.Sprint(w0) || res.KV["h"] != fmt.Sprint(h0) || (frames > 0 && res.KV["frames"] != fmt.Sprint(frames)) {
+			cr.fails = append(cr.fails, hlib.Failure{Key: "image-config:" + key,
+				Desc: fmt.Sprintf("Wuffs %s reports %sx%s frames=%s, reference decoder %dx%d frames=%d (%s)", codec, res.KV["w"], res.KV["h"], res.KV["frames"], w0, h0, frames, origin), Replay: replay})
+			return cr
+		}
+		got, _ := hex.DecodeString(strings.TrimPrefix(res.OutHex, "-"))
+		if !bytes.Equal(got, want) {
+			i := firstDiff(got, want)
+			bpp := len(pixfmt) / 2 // 4 for 8-bit BGRA; the 16-bit format has 8 bytes per pixel
+			if pixfmt == pixfmtBGRA16 {
+				bpp = 8
+			} else {
+				bpp = 4
+			}
+			px := i / bpp
+			x, y := 0, 0
+			if w0 > 0 {
+				x, y = px%w0, px/w0
+			}
+			cr.fails = append(cr.fails, hlib.Failure{Key: "image-pixels:" + key,
+				Desc: fmt.Sprintf("Wuffs %s (%s) pixels differ from Go's decoder for %s: %d vs %d bytes, first difference at byte %d (pixel x=%d y=%d): got %s want %s", codec, fl, origin, len(got), len(want), i, x, y, around(got, i), around(want, i)), Replay: replay})
+		}
+		return cr
+	}
+}
+
+func around(b []byte, i int) string {
+	lo, hi := i-4, i+8
+	if lo < 0 {
+		lo = 0
+	}
+	if hi > len(b) {
+		hi = len(b)
+	}
+	if lo >= hi {
+		return "-"
+	}
+	return hex.EncodeToString(b[lo:hi])
+}
+
+// ---------------------------------------------------------------- main
 
 func main() {
 	r := hlib.Start("C07")
@@ -19,5 +378,369 @@ func main() {
 		r.WriteGen("C07_Tables.lean", text)
 		return
 	}
-	r.Finish("stub")
+	defer cdrv.Cleanup()
+	if r.Mode == "cmds" {
+		// debugging aid: run the cdrv command lines of a file (-replay FILE) on both flavours
+		runCmdsFile(r)
+		return
+	}
+	ds, errs := cdrv.BuildAll(r.Repo, cdrv.PlainGcc, cdrv.NoArch)
+	if len(errs) > 0 {
+		var ks []string
+		for k, e := range errs {
+			ks = append(ks, string(k)+": "+e.Error())
+		}
+		sort.Strings(ks)
+		// The std library of the working tree does not regenerate / compile: nothing can be checked.
+		r.Fail("build:std-does-not-compile", "regenerating or compiling std from the working tree failed: "+trunc(strings.Join(ks, " | "), 3000), strings.Join(ks, "\n"))
+		r.Finish("build failed")
+		cdrv.Cleanup()
+		return
+	}
+	simd, generic := ds[cdrv.PlainGcc], ds[cdrv.NoArch]
+	r.Extra("cdrv_gen_s", simd.GenTime.Seconds())
+	r.Extra("cdrv_build_s", simd.BuildTime.Seconds()+generic.BuildTime.Seconds())
+
+	rng := r.Rand
+	initWords(rng.Fork())
+	var jobs []job
+
+	// ---- hashers
+	codecs := []string{"adler32", "crc32", "crc64", "sha256"}
+	for _, c := range codecs {
+		jobs = append(jobs, hash0Job(c))
+	}
+	hr := rng.Fork()
+	sizes := hashSizes(hr, r.Thorough)
+	leanBudget := map[string]int{"adler32": 1500000, "crc32": 1200000, "crc64": 700000, "sha256": 500000}
+	if r.Thorough {
+		for k := range leanBudget {
+			leanBudget[k] *= 8
+		}
+	}
+	ci := 0
+	for si, n := range sizes {
+		for _, c := range codecs {
+			ci++
+			data, content := hashContent(hr, ci+si, n)
+			part := partition(hr, n, hr.Intn(7))
+			mode := []string{"mix", "update", "value"}[hr.Intn(3)]
+			lean := leanBudget[c] >= n
+			if lean {
+				leanBudget[c] -= n + 200
+			}
+			jobs = append(jobs, hashJob(c, data, content, part, mode, lean))
+		}
+	}
+	// Adler-32 worst case: (s1, s2) = (65520, *) at the start of a chunk of 0xFF bytes.
+	for _, n := range []int{5552, 5553, 5554, 6000, 11104, 11106, 5536, 5537, 40000} {
+		data := append(bytes.Repeat([]byte{0xFF}, 256), 239)
+		data = append(data, bytes.Repeat([]byte{0xFF}, n)...)
+		jobs = append(jobs, hashJob("adler32", data, "adler-worst-case", []int{257, n}, "update", true))
+		jobs = append(jobs, hashJob("adler32", data, "adler-worst-case", []int{256, 1, n}, "value", true))
+	}
+	jobs = append(jobs, hashJob("adler32", bytes.Repeat([]byte{0xFF}, 200000), "all-ff", nil, "update", true))
+	// CRC slicing: every length 0..70 at the loop boundary (16 / 8 byte blocks), both halves of a split
+	for n := 0; n <= 70; n++ {
+		for _, c := range []string{"crc32", "crc64"} {
+			data := hr.Bytes(n)
+			jobs = append(jobs, hashJob(c, data, "random", partition(hr, n, 1), "mix", true))
+		}
+	}
+
+	// ---- io_transformers
+	tr := rng.Fork()
+	pays := transformerPayloads(tr, r.Thorough)
+	skipped := map[string]int{}
+	leanDec := 6000000 // total compressed+payload bytes sent to the Lean spec decoders
+	if r.Thorough {
+		leanDec *= 6
+	}
+	alt := 0
+	addDec := func(e encoded, p payload, chunk string) {
+		lean := (e.codec == "deflate" || e.codec == "zlib" || e.codec == "gzip" || e.codec == "lzw") && leanDec > 0
+		if lean {
+			leanDec -= len(e.data) + len(p.data)/4 + 100
+		}
+		alt++
+		jobs = append(jobs, decJob(e, p.data, p.class, chunk, alt, lean))
+	}
+	for pi, p := range pays {
+		// flate family: in the quick tier each payload gets a rotating subset of levels
+		for li, lv := range flateLevels {
+			if !r.Thorough && (li+pi)%3 != 0 && len(p.data) > 1000 {
+				continue
+			}
+			addDec(encoded{codec: "deflate", setting: "level=" + levelName(lv), data: encDeflate(p.data, lv, 0)}, p, chunkOpt(tr))
+			switch (li + pi) % 4 {
+			case 0:
+				addDec(encoded{codec: "zlib", setting: "level=" + levelName(lv), data: encZlib(p.data, lv, nil)}, p, chunkOpt(tr))
+			case 1:
+				var dict []byte
+				switch tr.Intn(3) {
+				case 0:
+					dict = tr.Bytes(tr.Range(1, 300))
+				case 1: // a dictionary the payload really refers to
+					k := len(p.data)
+					if k > 33000 {
+						k = 33000
+					}
+					dict = append([]byte{}, p.data[:k]...)
+				default:
+					dict = textPayload(tr, tr.Range(100, 40000)) // > 32 KiB: only the tail is used
+				}
+				addDec(encoded{codec: "zlib", setting: fmt.Sprintf("dict=%d level=%s", len(dict), levelName(lv)), opts: "zlib_dict=" + hlib.Hex(dict), dict: dict, data: encZlib(p.data, lv, dict)}, p, chunkOpt(tr))
+			case 2:
+				hdr := tr.Intn(16)
+				addDec(encoded{codec: "gzip", setting: fmt.Sprintf("hdr=%d level=%s", hdr, levelName(lv)), data: encGzipMember(p.data, lv, hdr, tr), members: 1}, p, chunkOpt(tr))
+			default:
+				// multi-member gzip: the payload cut in 2..4 members
+				nm := tr.Range(2, 4)
+				var all []byte
+				for m := 0; m < nm; m++ {
+					lo, hi := len(p.data)*m/nm, len(p.data)*(m+1)/nm
+					all = append(all, encGzipMember(p.data[lo:hi], lv, tr.Intn(16), tr)...)
+				}
+				addDec(encoded{codec: "gzip", setting: fmt.Sprintf("members=%d level=%s", nm, levelName(lv)), data: all, members: nm}, p, "")
+			}
+		}
+		if len(p.data) > 0 && (r.Thorough || pi%2 == 0) {
+			addDec(encoded{codec: "deflate", setting: "syncflush level=L6", data: encDeflate(p.data, 6, tr.Range(1, len(p.data)))}, p, chunkOpt(tr))
+		}
+		// lzw: literal widths 2..8; the payload is reduced to the alphabet
+		for lw := 2; lw <= 8; lw++ {
+			if !r.Thorough && (lw+pi)%3 != 0 && len(p.data) > 1000 {
+				continue
+			}
+			q := make([]byte, len(p.data))
+			for i, b := range p.data {
+				q[i] = b & byte(1<<uint(lw)-1)
+			}
+			addDec(encoded{codec: "lzw", setting: fmt.Sprintf("litwidth=%d", lw), opts: fmt.Sprintf("lzw_litwidth=%d", lw), lw: lw, data: encLzw(q, lw)}, payload{p.class, q}, chunkOpt(tr))
+		}
+		// external tools
+		if r.Thorough || pi%2 == 1 || len(p.data) < 1000 {
+			type tl struct {
+				codec, name string
+				args        []string
+			}
+			tools := []tl{
+				{"bzip2", "bzip2", []string{"-c", fmt.Sprintf("-%d", tr.Range(1, 9))}},
+				{"xz", "xz", []string{"-c", "--format=xz", fmt.Sprintf("-%d", tr.Range(0, 6)), []string{"--check=crc32", "--check=crc64", "--check=sha256", "--check=none"}[tr.Intn(4)]}},
+				{"lzma", "xz", []string{"-c", "--format=lzma", fmt.Sprintf("-%d", tr.Range(0, 6))}},
+			}
+			for _, t := range tools {
+				out, ok, err := tool(t.name, p.data, t.args...)
+				if !ok || err != nil {
+					skipped[t.codec]++
+					continue
+				}
+				addDec(encoded{codec: t.codec, setting: "tool=" + t.name + " " + strings.Join(t.args[1:], " "), data: out}, p, chunkOpt(tr))
+			}
+		}
+	}
+
+	// ---- images
+	ir := rng.Fork()
+	// (b) explicit PNG writer: colour type × depth × interlace × filter × width 1..17
+	type cd struct{ ct, depth int }
+	combos := []cd{{0, 1}, {0, 2}, {0, 4}, {0, 8}, {0, 16}, {2, 8}, {2, 16}, {3, 1}, {3, 2}, {3, 4}, {3, 8}, {4, 8}, {4, 16}, {6, 8}, {6, 16}}
+	nimg := 0
+	addPNG := func(file []byte, origin string) {
+		img, err := png.Decode(bytes.NewReader(file))
+		if err != nil {
+			skipped["png-go-rejects"]++
+			return
+		}
+		if !exactNonPremul(img) {
+			skipped["png-premultiplied-in-go"]++
+			return
+		}
+		b := img.Bounds()
+		nimg++
+		if is16(img) {
+			jobs = append(jobs, imgJob("png", file, origin, pixfmtBGRA16, bgra16(img), b.Dx(), b.Dy(), 1, nimg, chunkOptImg(ir)))
+		} else {
+			jobs = append(jobs, imgJob("png", file, origin, pixfmtBGRA8, bgra8(img), b.Dx(), b.Dy(), 1, nimg, chunkOptImg(ir)))
+		}
+	}
+	for w := 1; w <= 17; w++ {
+		for ci, c := range combos {
+			for il := 0; il < 2; il++ {
+				if !r.Thorough && (w+ci+il)%2 != 0 {
+					continue
+				}
+				s := pngSpec{w: w, h: ir.Range(1, 12), colorType: c.ct, depth: c.depth, interlace: il == 1,
+					filter: []int{0, 1, 2, 3, 4, 5, 6, 4, 4}[(w+ci+ir.Intn(9))%9], trns: (c.ct == 0 || c.ct == 2 || c.ct == 3) && ir.Chance(1, 3),
+					level: []int{-1, 0, 1, 9, -2}[ir.Intn(5)]}
+				addPNG(writePNG(ir, s), fmt.Sprintf("own-writer ct=%d depth=%d w=%d h=%d interlace=%v filter=%d trns=%v", s.colorType, s.depth, s.w, s.h, s.interlace, s.filter, s.trns))
+			}
+		}
+	}
+	// larger own-writer images (several IDAT chunks, > 32 KiB of scanlines)
+	nbig := 6
+	if r.Thorough {
+		nbig = 60
+	}
+	for i := 0; i < nbig; i++ {
+		c := combos[ir.Intn(len(combos))]
+		s := pngSpec{w: ir.Range(18, 300), h: ir.Range(13, 200), colorType: c.ct, depth: c.depth, interlace: ir.Bool(), filter: ir.Range(0, 6), trns: false, level: -1}
+		addPNG(writePNG(ir, s), fmt.Sprintf("own-writer-big ct=%d depth=%d w=%d h=%d interlace=%v filter=%d", s.colorType, s.depth, s.w, s.h, s.interlace, s.filter))
+	}
+	// (a) Go's encoder
+	ngo := 40
+	if r.Thorough {
+		ngo = 400
+	}
+	for i := 0; i < ngo; i++ {
+		w, h := ir.Range(1, 17), ir.Range(1, 20)
+		if ir.Chance(1, 6) {
+			w, h = ir.Range(18, 260), ir.Range(18, 120)
+		}
+		lv := []png.CompressionLevel{png.DefaultCompression, png.NoCompression, png.BestSpeed, png.BestCompression}[ir.Intn(4)]
+		file, name := goPNG(ir, i, w, h, lv)
+		addPNG(file, fmt.Sprintf("go-encoder %s %dx%d level=%d", name, w, h, lv))
+	}
+	// (c) test data
+	pngs, _ := filepath.Glob(filepath.Join(r.Repo, "test/data/*.png"))
+	sort.Strings(pngs)
+	for _, f := range pngs {
+		b, err := os.ReadFile(f)
+		if err != nil || len(b) > 400000 && !r.Thorough {
+			skipped["png-testdata-large"]++
+			continue
+		}
+		addPNG(b, "testdata "+filepath.Base(f))
+	}
+	// GIF
+	addGIF := func(file []byte, origin string) {
+		g, err := gif.DecodeAll(bytes.NewReader(file))
+		if err != nil {
+			skipped["gif-go-rejects"]++
+			return
+		}
+		want, w, h := gifExpected(g)
+		nimg++
+		jobs = append(jobs, imgJob("gif", file, origin, pixfmtBGRA8, want, w, h, len(g.Image), nimg, chunkOptImg(ir)))
+	}
+	ngif := 40
+	if r.Thorough {
+		ngif = 400
+	}
+	for i := 0; i < ngif; i++ {
+		w, h := ir.Range(1, 40), ir.Range(1, 40)
+		if ir.Chance(1, 8) {
+			w, h = ir.Range(100, 300), ir.Range(100, 200)
+		}
+		frames := ir.Range(1, 5)
+		lp, tp := ir.Bool(), ir.Bool()
+		addGIF(goGIF(ir, w, h, frames, lp, tp), fmt.Sprintf("go-encoder %dx%d frames=%d local-palettes=%v transparency=%v", w, h, frames, lp, tp))
+	}
+	gifs, _ := filepath.Glob(filepath.Join(r.Repo, "test/data/*.gif"))
+	sort.Strings(gifs)
+	for _, f := range gifs {
+		b, err := os.ReadFile(f)
+		if err != nil || len(b) > 400000 && !r.Thorough {
+			skipped["gif-testdata-large"]++
+			continue
+		}
+		addGIF(b, "testdata "+filepath.Base(f))
+	}
+
+	// ---- run everything (parallel workers, results emitted in job order → deterministic)
+	nw := 8
+	if r.Thorough {
+		nw = 14
+	}
+	results := make([]caseResult, len(jobs))
+	var wg sync.WaitGroup
+	next := make(chan int, len(jobs))
+	for i := range jobs {
+		next <- i
+	}
+	close(next)
+	for k := 0; k < nw; k++ {
+		wg.Add(1)
+		go func() {
+			defer wg.Done()
+			w := &worker{simd: simd.Spawn(), generic: generic.Spawn()}
+			defer w.simd.Close()
+			defer w.generic.Close()
+			for i := range next {
+				results[i] = jobs[i](w)
+			}
+		}()
+	}
+	wg.Wait()
+	oracle := 0
+	for _, cr := range results {
+		for _, o := range cr.ops {
+			r.Op(o.op, o.impl)
+			if len(o.op) < 300 {
+				r.Sample(o.op + "  =>  " + o.impl)
+			}
+		}
+		for _, f := range cr.fails {
+			r.Fail(f.Key, f.Desc, f.Replay)
+		}
+		for _, c := range cr.counts {
+			r.Count(c)
+		}
+		for _, n := range cr.nontriv {
+			r.Nontrivial(n)
+		}
+		if len(cr.ops) == 0 {
+			oracle++
+		}
+	}
+	var sk []string
+	for k, v := range skipped {
+		sk = append(sk, fmt.Sprintf("%s=%d", k, v))
+		r.CountN("skipped:"+k, v)
+	}
+	sort.Strings(sk)
+	if len(sk) > 0 {
+		r.Note("skipped (tool absent / reference decoder rejects or cannot represent exactly): " + strings.Join(sk, " "))
+	}
+	r.Extra("oracle_cases", oracle)
+	r.Extra("jobs", len(jobs))
+	simd.Close()
+	generic.Close()
+	r.Finish("hashers: lengths at the 16/64/5552(5536)-byte thresholds × content (random, 0xFF, zero, ramp, text) × update partitions (1 call, 2, many small incl. empty calls, byte-wise, ~5552, block-aligned) × update/update_value; decoders: structured payloads (empty … >32 KiB window, distance 32768, 15-bit codes, 65535 stored boundaries) × reference encoder settings × source/destination chunking; images: own PNG writer (15 colour-type/depth combos × width 1–17 × interlace × filter), Go's png/gif encoders, test/data files. A case is distinct by (codec, setting, payload class, size, partition/chunking).")
+	cdrv.Cleanup()
+}
+
+func chunkOptImg(rng *hlib.Rand) string {
+	switch rng.Intn(4) {
+	case 0:
+		return fmt.Sprintf("src=%d", rng.Range(1, 50))
+	case 1:
+		return fmt.Sprintf("src=%d", rng.Range(50, 5000))
+	}
+	return ""
+}
+
+func runCmdsFile(r *hlib.Run) {
+	b, err := os.ReadFile(r.Replay)
+	if err != nil {
+		fmt.Fprintln(os.Stderr, err)
+		os.Exit(2)
+	}
+	ds, errs := cdrv.BuildAll(r.Repo, cdrv.PlainGcc, cdrv.NoArch)
+	for k, e := range errs {
+		fmt.Println("build", k, e)
+	}
+	for _, line := range strings.Split(string(b), "\n") {
+		line = strings.TrimSpace(strings.TrimPrefix(strings.TrimSpace(line), "cdrv:"))
+		if line == "" || !(strings.HasPrefix(line, "run ") || strings.HasPrefix(line, "hash ") || strings.HasPrefix(line, "proto ")) {
+			continue
+		}
+		for _, fl := range []cdrv.Flavour{cdrv.PlainGcc, cdrv.NoArch} {
+			if d := ds[fl]; d != nil {
+				out, _ := runCmd(d, line)
+				fmt.Printf("%s | %s\n  => %s\n", fl, trunc(line, 100), trunc(out, 600))
+			}
+		}
+	}
+	cdrv.Cleanup()
 }
